@@ -5,7 +5,7 @@ from __future__ import annotations
 import base64
 import re as stdre
 
-NEUTRAL_PRE = [b"", b" ", b"zz ~ ", b"\n\n", b"-- ~~ ", b"qq;  "]
+NEUTRAL_PRE = [b"", b" ", b"zz ~ ", b"\n\n", b"-- ~~ ", b"qq;  ", b"\xef\xbb\xbf", b"\xef\xbb\xbf~ ", b"\xff\xfe ~ "]      # incl. byte-order marks at the very start of the input
 NEUTRAL_SUF = [b"", b" ", b" ~ zz", b"\n", b" ~~ --", b" ;qq"]
 
 
